@@ -10,6 +10,8 @@ for m in sorted(glob.glob(os.path.join(root, 'seeded', '*', 'meta.json')), key=l
     first = 'yes'
     if d.get('missed_initially'):
         first = '**no** -> ' + d.get('strengthened', '').replace('|', '/').replace('\n', ' ')
+    if d.get('obsolete'):
+        first += ' (obsolete: ' + d['obsolete'].split(' - ')[0] + ')'
     rows.append('| %s | %s | %s | %s | %s |' % (name, d['property'], d.get('needs', '').replace('|', '/'), det, first))
 table = ['| seeded change | property | needs | caught by | first run |', '|---|---|---|---|---|'] + rows
 s = open(os.path.join(root, 'DESIGN.md')).read()
